@@ -738,6 +738,19 @@ func (ev *Env) call(e *ast.CallExpr, old bool) Val {
 		}
 		h := ev.heap(heapName(si, 0), "Out", old)
 		return Val{S: "Out", T: fmt.Sprintf("(select %s %s)", h, v.T)}
+	case "scanidx":
+		// number of lines a *bufio.Scanner has delivered so far (ghost)
+		v := arg(0)
+		return Val{S: "Int", T: fmt.Sprintf("(select %s %s)", ev.heap(scanIdxHeap, "Int", old), v.T)}
+	case "scansrc":
+		// the reader a *bufio.Scanner scans (ghost)
+		v := arg(0)
+		return Val{S: "Any", T: fmt.Sprintf("(select %s %s)", ev.heap(scanSrcHeap, "Any", old), v.T)}
+	case "wout":
+		// everything written so far to an io.Writer that is not a strings.Builder (ghost content)
+		v := arg(0)
+		h := ev.heap(writerHeap, "Out", old)
+		return Val{S: "Out", T: fmt.Sprintf("(select %s (writerId %s))", h, v.T)}
 	case "alloc":
 		if old {
 			return Val{S: "Int", T: ev.st.top().oldAlloc}
